@@ -194,10 +194,7 @@ func init() {
 			if cfg.Expiry == "" && cfg.Refresh == "" {
 				prefixes = [][]string{{}, {"set 1"}, {"set 1", "set 2"}, {"set 1", "set 2", "set 3"}, {"set 2"}, {"set 3"}}
 			}
-			depth := 1
-			if thorough {
-				depth = 2
-			}
+			depth := 2 // every loading call followed by every loading call (the second one judges the state the first one left)
 			jobs = append(jobs, seqJob(seqParams{Cfg: cfg, Alphabet: alpha, Prefixes: prefixes, Kinds: kinds}, depth, 8, 300))
 		}
 		return jobs
@@ -360,9 +357,9 @@ func init() {
 			if cfg.Executor == "deferred" {
 				a = append(a, "runexec")
 			}
-			depth, budget := 3, 90
+			depth, budget := 4, 90
 			if thorough {
-				depth, budget = 4, 600
+				depth, budget = 5, 900
 			}
 			p := seqParams{Cfg: cfg, Alphabet: a, Persist: &persistParams{TargetMax: []int64{-1, 1, 2, 10}},
 				Kinds: []string{"no-seq-kinds"}}
@@ -394,9 +391,9 @@ func init() {
 					if ex == "deferred" {
 						a = append(a, "runexec")
 					}
-					depth, budget := 3, 60
+					depth, budget := 4, 90
 					if thorough {
-						depth, budget = 4, 600
+						depth, budget = 5, 900
 					}
 					jobs = append(jobs, seqJob(seqParams{Cfg: cfg, Alphabet: a, Kinds: kinds}, depth, 4, budget, "ops-on-refresh-due", "refresh-results"))
 				}
